@@ -11,6 +11,8 @@ use serde::{de, ser, Deserialize};
 use crate::input::{self, Ref};
 
 pub(crate) fn input_matches(mut input: Ref) -> io::Result<bool> {
+	#[cfg(xt_verif)]
+	crate::verif::emit("trial", 3, u64::from(matches!(input, Ref::Slice(_))), 0);
 	let input_buf = match input {
 		Ref::Slice(b) => b,
 		Ref::Reader(_) => {
@@ -65,6 +67,8 @@ impl<W: Write> Output<W> {
 		// fail if someone tries to use us more than once. We try to run this
 		// check before we even deserialize any values, so we don't waste time
 		// on things that will get thrown out.
+		#[cfg(xt_verif)]
+		crate::verif::emit("toml_use", u64::from(self.used), 0, 0);
 		if self.used {
 			return Err(TomlOutputError::MultiDocument.into());
 		}
@@ -88,6 +92,8 @@ impl<W: Write> Output<W> {
 		if let toml::Value::Table(table) = value {
 			let output = ::toml::to_string_pretty(table)?;
 			self.w.write_all(output.as_bytes())?;
+			#[cfg(xt_verif)]
+			crate::verif::emit("doc_end", 3, 0, 0);
 			Ok(())
 		} else {
 			Err(TomlOutputError::NonTableRoot.into())
@@ -101,6 +107,8 @@ impl<W: Write> crate::Output for Output<W> {
 		D: de::Deserializer<'de, Error = E>,
 		E: de::Error + Send + Sync + 'static,
 	{
+		#[cfg(xt_verif)]
+		crate::verif::emit("doc_begin", 3, 0, 0);
 		self.ensure_one_use()?;
 		let value = ::toml::Value::deserialize(de)?;
 		self.output_value(&value)
@@ -110,6 +118,8 @@ impl<W: Write> crate::Output for Output<W> {
 	where
 		S: ser::Serialize,
 	{
+		#[cfg(xt_verif)]
+		crate::verif::emit("doc_begin", 3, 1, 0);
 		self.ensure_one_use()?;
 		let value = ::toml::Value::try_from(value)?;
 		self.output_value(&value)
